@@ -6,6 +6,7 @@ FEW_ITERS_KEY = 'fit-no-worse-than-uniform:few-iterations'
 EXACT_ITERS = 1000
 FACTORED_ITERS = 3000
 FINAL_ITERS = 30000
+CYCLE_KEY = 'bounded:disjoint-cliques-reach-exact-optimum:period-2-cycle'
 ESCALATED_ITERS = 6000
 
 
@@ -139,18 +140,23 @@ class C18(Prop):
                 dis.append(c)
         # a clique measured twice at different (well-conditioned: factor 2..3) noise scales: the weighting 1/sigma^2 matters
         for rep in range(1 if quick else 8):
-            for cl in ([('a', 'b'), ('a', 'b'), ('c',)], [('a',), ('b', 'c'), ('a',), ('b', 'c')]):
+            for cl in ([('a', 'b'), ('a', 'b'), ('c',)], [('a',), ('b', 'c'), ('a',), ('b', 'c')], [('a',), ('b', 'c')]):
                 c = mk('disjoint-exact', cl, None, EXACT_ITERS)
                 del c['oracle']
                 c['oracles'] = ['pairwise', 'convex', 'approx']
                 s0 = float(rng.choice([0.5, 1.0, 2.0]))
-                c['sigmas'] = [s0, s0 * float(rng.choice([2.0, 3.0]))]
+                s1 = s0 * float(rng.choice([2.0, 3.0]))
+                # every repeated clique at both scales; the two-clique structure has one scale per clique
+                c['sigmas'] = [s0, s1, s0] if len(cl) == 3 else [s0, s0, s1, s1] if len(cl) == 4 else [s0, s1]
                 c['N'] = 1000
                 c['total'] = 1000.0 if c['total'] is not None else None
                 c['qkinds'] = ['eye', 'eye', 'eye'] if len(cl) == 3 else ['eye', 'dense']
                 c['tight'] = True
                 dis.append(c)
-        return _interleave(gen_slow, dis, gen)
+        # the recorded known finding (period-2 cycle of mirror_descent_auto), so that every run exercises and reports it
+        known = dict(kind='disjoint-exact', attrs=A[:3], shape=[2, 2, 3], cliques=ac.jl([('a',), ('b', 'c')]), iters=EXACT_ITERS, total=1000.0, N=1000,
+                     seed=1049956192, sigmas=[0.5, 1.5], qkinds=['eye', 'dense'], oracles=['pairwise', 'convex', 'approx'], tight=True)
+        return _interleave([known], gen_slow, dis, gen)
 
     def nontrivial(self, case):
         return len(case['cliques']) >= 2
@@ -215,12 +221,18 @@ class C18(Prop):
                     tolv = min(tolv, 0.02 * Lopt + 1e-6)
                 det = dict(ref, loss=L, uniform_loss=L0, tolerance=tolv, iters=case['iters'], oracle=oracle)
                 ok = L <= Lopt + tolv
-                if not ok:
+                latest = res
+                if not ok and self._cycling(res.get('last_iterates') or [], T_ind):
+                    # the iteration alternates between two points (x[t] == x[t-2] != x[t-1]) at equal loss, so the step-size rule,
+                    # which only reacts to an increasing loss, never fires: more iterations cannot help (known finding)
+                    det['period_2_cycle'] = True
+                elif not ok:
                     # "with enough iterations": mirror descent shows long plateaus on some inputs; escalate once before judging
                     res2 = self._estimate(case, dom, meas, oracle, ESCALATED_ITERS)
                     if 'exception' in res2:
                         out.append(('completes' + tag, False, res2))
                         continue
+                    latest = res2
                     tabs2, bad2 = self._tables(res2['model'], meas, attrs, shape, T_ind)
                     L2 = ac.l2_loss(tabs2, meas) if not bad2 else float('inf')
                     det.update(loss_after_escalation=L2, escalated_iters=ESCALATED_ITERS)
@@ -230,10 +242,13 @@ class C18(Prop):
                         # for thousands of iterations (observed: stuck from 50 to 6000, optimum reached by 20000): last escalation
                         res3 = self._estimate(case, dom, meas, oracle, FINAL_ITERS)
                         if 'exception' not in res3:
+                            latest = res3
                             tabs3, bad3 = self._tables(res3['model'], meas, attrs, shape, T_ind)
                             L3 = ac.l2_loss(tabs3, meas) if not bad3 else float('inf')
                             det.update(loss_after_final_escalation=L3, final_iters=FINAL_ITERS)
                             ok = L3 <= Lopt + tolv
+                if not ok and 'period_2_cycle' not in det:
+                    det['period_2_cycle'] = self._cycling(latest.get('last_iterates') or [], T_ind)
                 out.append(('disjoint-cliques-reach-exact-optimum' + tag, ok, det))
         return out
 
@@ -241,9 +256,18 @@ class C18(Prop):
         import numpy as np, traceback
         from mbi import LocalInference
         np.random.seed(case['seed'] % (1 << 31))
+        last = []
+
+        def remember(mu):
+            # the last few iterates of the measured tables (diagnostic only: is the iteration cycling?)
+            last.append({cl: np.array(mu[cl].datavector(), dtype=float, copy=True) for _, _, _, cl in meas if cl in mu})
+            if len(last) > 4:
+                last.pop(0)
         try:
             engine = LocalInference(dom, marginal_oracle=oracle, iters=iters)
-            return dict(model=engine.estimate([(Q, y.copy(), s, cl) for Q, y, s, cl in meas], total=case['total']))
+            model = engine.estimate([(Q, y.copy(), s, cl) for Q, y, s, cl in meas], total=case['total'],
+                                    callback=remember if case.get('kind') == 'disjoint-exact' else None)
+            return dict(model=model, last_iterates=last)
         except Exception as e:
             return dict(exception='%s: %s' % (type(e).__name__, e), traceback=traceback.format_exc(limit=8), oracle=oracle, iters=iters)
 
@@ -257,10 +281,29 @@ class C18(Prop):
                 bad.append(dict(clique=cl, table=v, **d))
         return tabs, bad
 
+    @staticmethod
+    def _cycling(last, total):
+        """True iff the final iterates alternate between two clearly different points: x[t] == x[t-2] != x[t-1] (to 1e-6 of the
+        total resp. by more than 1e-3 of it) for some measured table."""
+        import numpy as np
+        if len(last) < 4:
+            return False
+        for cl in last[-1]:
+            a, b, c, d = (it.get(cl) for it in last[-4:])
+            if any(x is None for x in (a, b, c, d)):
+                continue
+            same2 = max(np.abs(d - b).max(), np.abs(c - a).max()) <= 1e-6 * max(1.0, total)
+            diff1 = np.abs(d - c).max() > 1e-3 * max(1.0, total)
+            if same2 and diff1:
+                return True
+        return False
+
     def finding_key(self, case, clause, detail):
         clause = clause.split('[')[0]
         if clause == 'fit-no-worse-than-uniform' and case.get('iters', 0) < 10:
             return FEW_ITERS_KEY
+        if clause == 'disjoint-cliques-reach-exact-optimum' and isinstance(detail, dict) and detail.get('period_2_cycle'):
+            return CYCLE_KEY
         return 'bounded:%s' % clause
 
 
